@@ -44,6 +44,8 @@ def gen_cases(tier, seed):
                                max_in_memory_upload_chunks=rng.choice([1, 2, 3]),
                                max_request_queue_size=rng.choice([1, 2, 1000]))
                     t = {'kind': 'upload', 'src': src.split('_')[0], 'size': size}
+                    if src.startswith('path') and rng.random() < 0.3:
+                        t['symlink'] = True
                     if start is not None:
                         t['start'] = start
                     # stream flavour: declares seekable()/readable() like io.IOBase, or only offers the methods (probed)
